@@ -978,6 +978,22 @@ impl Gen {
     }
 
     fn assign_stmt(&mut self, out: &mut Vec<Stmt>) {
+        // now and then: re-bind a function name to another function of the same signature
+        // (call sites written earlier must call the new one from then on)
+        if self.chance(0.08) {
+            let fs: Vec<Var> = self
+                .visible()
+                .into_iter()
+                .filter(|v| matches!(v.ty, Ty::Fn(..)) && !self.fuel_fns.contains(&v.name))
+                .collect();
+            if let Some(v) = fs.choose(&mut self.rng).cloned() {
+                if let Ty::Fn(ps, ret) = v.ty.clone() {
+                    let f = self.func_literal("", ps, *ret, false);
+                    out.push(Stmt::Expr(Expr::Assign(b(id(&v.name)), b(f))));
+                    return;
+                }
+            }
+        }
         let vs: Vec<Var> = self
             .visible()
             .into_iter()
